@@ -342,6 +342,7 @@ def isskew(S, tol=10):
 
     :seealso: isskewa
     """
+    S = base.vectors._asdouble(S)
     return np.linalg.norm(S + S.T) < tol * _eps
 
 
@@ -370,6 +371,7 @@ def isskewa(S, tol=10):
 
     :seealso: isskew
     """
+    S = base.vectors._asdouble(S)
     return np.linalg.norm(S[0:-1, 0:-1] + S[0:-1, 0:-1].T) < tol * _eps \
         and np.all(S[-1, :] == 0)
 
